@@ -1,4 +1,5 @@
 import SMV.Props.C01
+import SMV.Model.Registry
 /-!
 # Line-protocol driver
 
@@ -81,6 +82,12 @@ structure Scn where
   fuel : Nat := 100000
   ops : Array Op := #[]
   raw : Array (List String) := #[]            -- lines for other kinds
+  -- registry form: declared specs + providers; the callback lists are computed by `SMV.Reg.buildStates`
+  provs : List Prov.Provider := []
+  ctor : List Nat := []                       -- provider ids attached at construction, in order
+  late : List (List Nat) := []                -- one entry per later `add_listener` call
+  sdecls : Array Reg.StateDecl := #[]
+  tdecls : Array Reg.TransDecl := #[]
 deriving Inhabited
 
 def Scn.behav (s : Scn) : CbId → Nat → Obs → Act := fun cb _ o =>
@@ -102,8 +109,46 @@ def Scn.reprV (s : Scn) (v : Val) : String :=
   | some (_, _, r) => r
   | none => s!"v{v}"
 
+def groupOf (g : String) : Reg.Group :=
+  match g with
+  | "validators" => .validators | "cond" => .cond | "before" => .before | "on" => .on
+  | "after" => .after | "enter" => .enter | _ => .exit
+
+/-- spec tokens `group/n<id> or c<cb>/prio/only-or-dash/expected` separated by `;` (written without the closing sequence) -/
+def specsOf (s : String) : List Reg.Spec :=
+  if s == "-" || s == "" then [] else
+  (s.splitOn ";").filterMap fun t =>
+    match t.splitOn "/" with
+    | [g, r, p, o, e] =>
+      let ref : Reg.Ref := if r.startsWith "n" then .name (natOf (r.drop 1).toString) else .callable (natOf (r.drop 1).toString)
+      some { group := groupOf g, ref := ref, prio := natOf p, only := optNat o, expected := boolOf e }
+    | _ => none
+
+/-- `7:12,8:13` = attribute name 7 is callback 12 … -/
+def attrsOf (s : String) : List (Nat × Nat) :=
+  if s == "-" || s == "" then [] else
+  (s.splitOn ",").filterMap fun t =>
+    match t.splitOn ":" with
+    | [a, b] => some (natOf a, natOf b)
+    | _ => none
+
 def addLine (s : Scn) (toks : List String) : Scn :=
   match toks with
+  | "prov" :: pid :: attrs :: _ => { s with provs := s.provs ++ [{ id := natOf pid, attrs := attrsOf attrs }] }
+  | "ctor" :: ids :: _ => { s with ctor := natList ids }
+  | "late" :: ids :: _ => { s with late := s.late ++ [natList ids] }
+  | "sdecl" :: rest =>
+    let kv := kvs rest
+    let d : Reg.StateDecl :=
+      { value := natOf (look kv "val"), initial := boolOf (look kv "init"), final := boolOf (look kv "final"),
+        specs := specsOf (look kv "specs") }
+    { s with sdecls := s.sdecls.push d }
+  | "tdecl" :: rest =>
+    let kv := kvs rest
+    let d : Reg.TransDecl :=
+      { source := natOf (look kv "src"), target := natOf (look kv "tgt"), events := natList (look kv "ev"),
+        internal := boolOf (look kv "int"), specs := specsOf (look kv "specs") }
+    { s with tdecls := s.tdecls.push d }
   | "opt" :: rest =>
     let kv := kvs rest
     { s with
@@ -186,8 +231,14 @@ def entryS (s : Scn) : Entry → String
 
 def sortNat (l : List Nat) : List Nat := (l.toArray.qsort (· < ·)).toList
 
+/-- registry form: variant k = the machine after the first k late `add_listener` calls -/
+def Scn.regVariants (s : Scn) : Array (Array StateDef) :=
+  let pick := fun (ids : List Nat) => ids.filterMap fun i => s.provs.find? (·.id == i)
+  ((List.range (s.late.length + 1)).map fun k =>
+    (Reg.buildStates s.sdecls.toList s.tdecls.toList (pick s.ctor) ((s.late.take k).map pick)).toArray).toArray
+
 def runEngine (s0 : Scn) : List String := Id.run do
-  let allv := s0.variants.push s0.states
+  let allv := if s0.sdecls.isEmpty then s0.variants.push s0.states else s0.regVariants
   let s : Scn := { s0 with states := allv[0]! }
   let mut m := s.machine
   let mut cfg : Cfg := { cur := s.cur0 }
